@@ -30,7 +30,7 @@ def pcName : Pc → String
   | .pfPoll _ => "pfPoll" | .pfPollRel _ _ => "pfPollRel" | .pfBlocked _ => "pfBlocked" | .dqCheck _ _ => "dqCheck" | .dqDequeue _ _ => "dqDequeue"
   | .dqRequeue _ _ _ _ => "dqRequeue" | .dqCheck2 _ _ _ => "dqCheck2" | .dqSetWfw _ _ _ => "dqSetWfw" | .dqStore _ _ _ => "dqStore" | .dqSetWfp _ _ _ => "dqSetWfp"
   | .dqWakeWith _ _ _ _ => "dqWakeWith" | .dqStore2 _ _ => "dqStore2" | .dqIdle2 _ _ => "dqIdle2" | .dqIdle _ _ => "dqIdle" | .fsTake _ => "fsTake" | .fsTake2 _ => "fsTake2"
-  | .smSet _ => "smSet" | .dpRead => "dpRead" | .dpPop _ => "dpPop" | .dpJoin _ => "dpJoin"
+  | .smSet _ => "smSet" | .dpRead => "dpRead" | .dpLock _ => "dpLock" | .dpHang _ _ => "dpHang" | .dpJoin _ => "dpJoin"
 
 def allPcNames : List String :=
   ["begin", "body", "stReap", "stScanLock", "stScan", "stScanHeld", "stScanRel", "stScanUnlock", "stReadMax", "stSpawn", "stSpawnRel",
@@ -39,7 +39,7 @@ def allPcNames : List String :=
    "sbStealTest", "sbStealIdle", "sbWait", "sbWaiting", "sbDone", "sbDropCv", "sbPrune", "rjDequeue", "rjPending", "rjParkCheck", "rjPark", "rjParked",
    "jobStart", "jobAwait", "jobBodyDone", "jobEnd", "jobSignal", "jobSigDrop", "jobDrop", "jobDropNotify", "ptRecv", "ptRecvd", "ptLockBusy", "ptLockSched", "ptPop",
    "ptUnlockSched", "ptUnlockBusy", "pdDequeue", "pdRequeue", "pdPending", "pdExit", "pfPoll", "pfPollRel", "pfBlocked", "dqCheck", "dqDequeue",
-   "dqRequeue", "dqCheck2", "dqSetWfw", "dqStore", "dqSetWfp", "dqWakeWith", "dqStore2", "dqIdle2", "dqIdle", "fsTake", "smSet", "dpRead", "dpPop", "dpJoin"]
+   "dqRequeue", "dqCheck2", "dqSetWfw", "dqStore", "dqSetWfp", "dqWakeWith", "dqStore2", "dqIdle2", "dqIdle", "fsTake", "smSet", "dpRead", "dpLock", "dpHang", "dpJoin"]
 
 def qstateName : QState → String
   | .idle => "Idle" | .pending => "Pending" | .running => "Running" | .waitingForWake => "WaitingForWake"
@@ -204,7 +204,7 @@ def replayEvent (r : Replay) (ag : Nat) (ws : List String) : Except String Repla
   | "setup-done" :: _ => return { r with started := true }
   | kind :: args =>
     if !r.started then return r
-    if ["callers-done", "all-completed", "quiet", "finished", "free", "oraclefail", "start", "exit", "join", "wait", "woke", "hangup"].contains kind then return r
+    if ["callers-done", "all-completed", "quiet", "finished", "free", "oraclefail", "start", "exit", "join", "wait", "woke"].contains kind then return r
     if kind == "inv" then
       let id := parseNatD (args.getD 0 "")
       let k := args.getD 1 ""
@@ -262,8 +262,10 @@ def replayEvent (r : Replay) (ag : Nat) (ws : List String) : Except String Repla
       | some av => (match av.pc with | .rqNotifyAcq _ _ _ _ | .rqPush _ _ => true | _ => false)
       | none => false
     -- (a) the implementation signals a finished caller the model no longer lists: skip its three events
+    let nextObs : Option Obs := (stepAct r.s a).map (·.2)
     let skipEv : Bool := match evW with
-      | some w => inNotify && !sure w && (match headTodo with | some (h, _) => h != w | none => true)
+      | some w => !sure w && !(nextObs == some (.acqG w) || nextObs == some (.notify1 w) || nextObs == some (.csG w))
+                  && (match headTodo with | some (h, _) => h != w | none => true)
       | none => false
     if skipEv then return r
     -- (b) the model lists a finished caller the implementation no longer signals: drop it from the list
@@ -310,6 +312,7 @@ def replayEvent (r : Replay) (ag : Nat) (ws : List String) : Except String Repla
         | .error e => fail e
       | "tryfail", .tryFailB p => bindName r1 "B" (args.getD 0 "") p
       | "send", .send p => bindName r1 "M" (args.getD 0 "") p
+      | "hangup", .hangup p => bindName r1 "M" (args.getD 0 "") p
       | "recv", .recv p => bindName r1 "M" (args.getD 0 "") p
       | "recvd", .recvd p ok => if (args.getD 1 "" == "ok") == ok then bindName r1 "M" (args.getD 0 "") p else fail "channel outcome"
       | "spawn", .spawn p =>
